@@ -159,11 +159,65 @@ mtbl_res mtbl_compress_level(mtbl_compression_type t, int level, const uint8_t *
 {
 	return ghost_compress(t, level, 1, in, n, out, on);
 }
-/* thread pool API: not used (pool == NULL); present for the link */
-struct result_handler *result_handler_init(result_cb cb, void *d) { (void)cb; (void)d; return NULL; }
-void result_handler_destroy(struct result_handler **rh) { (void)rh; }
-void threadpool_dispatch(struct threadpool *p, struct result_handler *rh, bool o, thread_cb cb, void *a)
-{ (void)p; (void)rh; (void)o; (void)cb; (void)a; }
+/* ---------------- thread pool contract (C13 layer A) ----------------
+ * threadpool_dispatch(ordered = true) runs the job and hands its result to the result callback
+ * at some later point, in dispatch order; result_handler_destroy returns only after every
+ * outstanding result has been delivered.  WDELIVER (shape) fixes the point: 0 = at once,
+ * 1 = at the next pool call, 2 = only inside result_handler_destroy, 3 = solver-chosen. */
+#ifndef WPOOL
+#define WPOOL 0
+#endif
+#ifndef WDELIVER
+#define WDELIVER 3
+#endif
+struct result_handler { result_cb cb; void *cbdata; };
+static struct { thread_cb cb; void *arg; struct result_handler *rh; int pending; } WJOB[8];
+static size_t wjobs, wnext;		/* wnext: first undelivered job (ordered delivery) */
+static int w_unordered_dispatch, w_rh_open;
+static void w_deliver_upto(size_t n)
+{
+	for (size_t i = 0; i < 8; i++) {
+		if (i < wnext || i >= n || i >= wjobs) continue;
+		void *res = WJOB[i].cb(WJOB[i].arg);
+		WJOB[i].rh->cb(res, WJOB[i].rh->cbdata);
+		WJOB[i].pending = 0;
+		wnext = i + 1;
+	}
+}
+static void w_progress(int new_dispatch)
+{
+	size_t upto = wnext;
+	if (WDELIVER == 0) upto = wjobs;
+	else if (WDELIVER == 1) upto = new_dispatch ? wjobs : wnext;
+	else if (WDELIVER == 3) { upto = (size_t)vn_range(0, 8); if (upto < wnext) upto = wnext; if (upto > wjobs) upto = wjobs; }
+	w_deliver_upto(upto);
+}
+struct result_handler *result_handler_init(result_cb cb, void *d)
+{
+	struct result_handler *rh = calloc(1, sizeof(*rh));
+	V_ASSUME(rh != NULL);
+	rh->cb = cb; rh->cbdata = d;
+	w_rh_open++;
+	return rh;
+}
+void result_handler_destroy(struct result_handler **rh)
+{
+	if (*rh == NULL) return;
+	w_deliver_upto(wjobs);
+	free(*rh);
+	*rh = NULL;
+	w_rh_open--;
+}
+void threadpool_dispatch(struct threadpool *p, struct result_handler *rh, bool ordered, thread_cb cb, void *a)
+{
+	(void)p;
+	if (!ordered) w_unordered_dispatch = 1;
+	w_progress(1);
+	V_ASSUME(wjobs < 8);
+	WJOB[wjobs].cb = cb; WJOB[wjobs].arg = a; WJOB[wjobs].rh = rh; WJOB[wjobs].pending = 1;
+	wjobs++;
+	w_progress(0);
+}
 
 /* ---------------- independent decoder (format description only) ---------------- */
 static size_t d_pos;
@@ -403,6 +457,14 @@ static struct mtbl_writer *make_writer(void)
 	block_builder_destroy(&w->index);
 	w->data = small_builder(RI);
 	w->index = small_builder(RI);
+#if WPOOL
+	{
+		/* what mtbl_writer_init_fd does when the options carry a pool */
+		static int pool_token;
+		w->pool = (struct threadpool *)&pool_token;
+		w->rhandler = result_handler_init(_write_data_block_wrapper, w);
+	}
+#endif
 	return w;
 }
 
@@ -471,6 +533,7 @@ void h_write(void)
 	V_ASSERT(w == NULL && G_closes == 1 && !G_bad_fd, "C18: writer closes its descriptor exactly once");
 	for (size_t i = 0; i < PFX; i++)
 		V_ASSERT(G_data[i] == pfx_copy[i], "C09: bytes before the table are untouched");
+	V_ASSERT(!w_unordered_dispatch && w_rh_open == 0 && wnext == wjobs, "C13: writer blocks must be dispatched ordered, all delivered, and the result handler joined at close");
 	V_ASSERT(!comp_bad, "C01: compressor called with an algorithm/level other than the configured one");
 	V_ASSERT((COMPW == 0) == (comp_calls == 0), "C01: compression used iff configured");
 #ifndef NODECODE
